@@ -20,16 +20,20 @@ from vlib import log
 TRACE_PLANS = {
     "C01": [("solve:base,locks,excl,unknown,cyclic", 160, 2500, "hints,async", True),
             ("solve:soft,softhints", 150, 2500, "", True),
-            ("solve:hints", 150, 2500, "asynchints", True)],
+            ("solve:hints", 150, 2500, "asynchints", True),
+            ("solve:hintcons", 1500, 9000, "", True)],
     "C02": [("solve:midconflict", 220, 4000, "perm,renum,act,hints", True),
             ("solve:conflict", 150, 3000, "act", True),
-            ("solve:base,locks,excl,direct", 100, 2000, "perm,renum,hints,async", True)],
+            ("solve:base,locks,excl,direct", 100, 2000, "perm,renum,hints,async", True),
+            ("solve:hintcons", 600, 9000, "", True)],
     "C03": [("solve:midconflict,conflict", 260, 4000, "hints", True),
-            ("solve:cyclic,locks,excl,unknown", 150, 2500, "hints", True)],
+            ("solve:cyclic,locks,excl,unknown", 150, 2500, "hints", True),
+            ("solve:bigconflict", 60, 12000, "", True)],
     "C04": [("solve:hintexcl,selfcons,softlone", 250, 6000, "", False),
             ("solve:cyclic,excl,locks,unknown,soft,softhints", 120, 4000, "hints", False),
             ("solve:midconflict,base", 120, 4000, "asynchints", False),
-            ("solve:softconflict", 300, 6000, "", False)],
+            ("solve:softconflict", 300, 6000, "", False),
+            ("synth:cyclic,midconflict,base,excl,locks,unknown", 120, 2500, "", False)],
     "C05": [("solve:midconflict,conflict,direct", 250, 4000, "", True),
             ("solve:base,cyclic", 200, 3000, "hints", True)],
     "C07": [("solve:clean", 500, 8000, "hints,async,perm", False),
@@ -51,10 +55,12 @@ TRACE_PLANS = {
     "C15": [("wide:1,2,3,4,5,6,7,8,9", 1, 1, "", False),
             ("wide:15,16,17,31,32,33,40", 1, 1, "", False),
             ("widechain:2,3,4,5,6,7,8,9,12,16,17,24,32,33,40", 1, 1, "", True),
-            ("widealt:3,4,5,6,7,8,9,10,12,16,17,20,32,33,40", 1, 1, "", True)],
+            ("widealt:3,4,5,6,7,8,9,10,12,16,17,20,32,33,40", 1, 1, "", True),
+            ("solve:hintcons", 800, 6000, "", True)],
     "C14": [("solve:softconflict", 300, 5000, "", True),
             ("solve:soft", 500, 8000, "", True),
-            ("solve:softhints", 250, 4000, "", True)],
+            ("solve:softhints", 250, 4000, "", True),
+            ("solve:softeager", 800, 6000, "", True)],
 }
 
 # design-level model checking of LazyCdcl per property: (plan, n quick, n thorough, liveness)
@@ -80,6 +86,9 @@ ALSO = {
             "C02_UnsatButSatisfiable", "C01_V_RootReq", "C01_V_RootCons", "C01_V_Known", "C01_V_Req", "C01_V_Cons",
             "C01_V_Excluded", "C01_V_Locked", "C01_V_OnePerName", "C01_DupInSolution", "C01_DbNotSatisfied"],
     "C02": ["C04_Panic", "C04_Timeout", "C04_Crash"],
+    # an implied assignment whose reason is not unit survives the undo of what justified it:
+    # the operational form of "dependencies of abandoned candidates are not installed"
+    "C05": ["C02_ReasonIsUnit", "C02_ReasonLogged", "C04_Panic", "C04_Timeout", "C04_Crash"],
     "C06": ["C02_VerdictDiffers"],
     "C15": ["C02_UnsatButSatisfiable", "C01_V_OnePerName", "C01_V_RootReq", "C01_V_Req", "C01_DupInSolution",
             "C01_DbNotSatisfied", "C04_Panic", "C04_Timeout", "C04_Crash"],
@@ -456,15 +465,18 @@ def mc_lazycdcl(prop, tier, seed, plan, n, liveness=False, timeout=None):
             elif '"ev":"result"' in line:
                 e = json.loads(line)
                 real[cur] = (e["kind"], ",".join(str(x) for x in sorted(e["sol"])))
-    verdict_mismatch, member, multi = [], 0, 0
+    verdict_mismatch, member, multi, nomodel, nonmember = [], 0, 0, 0, []
     for cid, (k, sol) in real.items():
         outs = model.get(cid, set())
         if not outs:
+            nomodel += 1
             continue
         if k in ("sat", "unsat") and k not in {o[0] for o in outs}:
             verdict_mismatch.append(cid)
         if (k, sol) in outs:
             member += 1
+        else:
+            nonmember.append({"case": cid, "real": [k, sol], "model": sorted(outs)})
         if len(outs) > 1:
             multi += 1
     for cid in verdict_mismatch[:1]:
@@ -478,7 +490,8 @@ def mc_lazycdcl(prop, tier, seed, plan, n, liveness=False, timeout=None):
             "mc_model": module[3:] + ".tla",
             "mc_invariants": invs + (["Termination (liveness, weak fairness)"] if liveness else []),
             "mc_real_outcome_in_model_set": member, "mc_cases_with_several_model_outcomes": multi,
+            "mc_cases_without_model_outcome": nomodel, "mc_real_outcome_not_in_model_set": nonmember[:5],
             "mc_verdict_mismatches": len(verdict_mismatch)}
-    log(f"[{prop}] LazyCdcl MC: {cnt} cases, {st['distinct']} states, real outcome in model set {member}/{len(real)}, "
+    log(f"[{prop}] LazyCdcl MC: {cnt} cases, {st['distinct']} states, real outcome in model set {member}/{len(real) - nomodel}, "
         f"verdict mismatches {len(verdict_mismatch)}")
     return info, viol
